@@ -157,3 +157,37 @@ func (ps *pathSet) nilOnlyAfter(is func(*ssa.Call) bool) (bool, string) {
 	}
 	return n > 0, "no path returns nil"
 }
+
+// failTerminates: every path on which `call` failed ends in a call that does not return, with a non-zero exit status.
+func (ps *pathSet) failTerminates(call *ssa.Call) (bool, string) {
+	if !ps.usable {
+		return false, ps.why
+	}
+	n := 0
+	for _, p := range ps.paths {
+		failed := false
+		for _, ev := range p.events {
+			if ev.call == ssa.CallInstruction(call) && ev.ok < 0 {
+				failed = true
+			}
+		}
+		if !failed {
+			continue
+		}
+		n++
+		if !p.noret || len(p.events) == 0 {
+			return false, fmt.Sprintf("after %s failed the function goes on to %s", calleeName(call), ps.p.Pos(p.retPos))
+		}
+		last := p.events[len(p.events)-1]
+		if last.call == nil {
+			return false, "the path ends in a panic"
+		}
+		if bad := zeroExit(last.call, 0); bad != nil {
+			return false, "the command exits with status 0"
+		}
+	}
+	if n == 0 {
+		return false, "no path on which the call fails"
+	}
+	return true, ""
+}
